@@ -2,6 +2,8 @@
 From Coq Require Import List Arith Bool.
 From Syz Require Import LockTable Conc ConcProofs ConcSafety.
 From Syz Require ConcLin.
+(* no method that takes the collection mutex shared writes through its receiver (regenerated from the sources on this run) *)
+From Syz Require GenTablesOk.
 Import ListNotations.
 
 (* the lock table regenerated from the Go sources on this very run satisfies the discipline: on every
